@@ -89,16 +89,19 @@ PPatch(e) ==
                            <<~IsFault(e) /\ e.status \notin {201, 202, 400, 404, 416}, "patch-status">> >>)
   /\ UNCHANGED <<h, refused, bad>>
 
-\* ---- PUT: closing request or single request upload
+\* ---- PUT: closing request or single request upload; a PUT that is refused or breaks off may
+\* leave acc bytes of its body in the session
 PPut(e) ==
   /\ nfault' = Count(e)
+  /\ off' = off + e.acc
   /\ refused' = (refused \/ (e.why = "refused" /\ e.n > 0))
   /\ open' = IF e.committed = 1 \/ e.why = "minlen" THEN FALSE ELSE open
   /\ bad' = First(bad, << <<e.committed = 1 /\ Mismatch /\ DeclDigest /\ e.cdig = h.ddig, "O2-commit">> >>)
   /\ hbad' = First(hbad, << <<e.committed = 1 /\ (e.cdig # e.digest \/ e.clen # off + e.n), "commit-facts">>,
+                           <<e.acc < 0 \/ e.acc > e.n \/ (e.acc > 0 /\ (e.committed = 1 \/ ~(e.why = "refused" \/ IsFault(e)))), "kept-prefix">>,
                            <<e.committed = 1 /\ ~open, "commit-without-session">>,
                            <<e.why = "minlen" /\ ~(h.enforce = 1 /\ short), "minlen-unjustified">> >>)
-  /\ UNCHANGED <<h, off, short, nonconf>>
+  /\ UNCHANGED <<h, short, nonconf>>
 
 PGet(e) ==
   /\ nfault' = Count(e)
